@@ -61,7 +61,7 @@ def nontrivial(res):
 
 
 def case_kw(rng, row):
-    kw = {'mpu': False, 'e': 0}
+    kw = {'mpu': False, 'e': 1 if rng.random() < 0.2 else 0}          # branch tables (TBB/TBH) and PC loads are data accesses: they follow CPSR.E
     if rng.random() < 0.4:
         kw['code_base'] = rng.choice((0, 0xFFFFFF00, 0xFFFF0000, 0x7FFFFF80, 0x80000000))     # instruction addresses next to 0 / 2^31 / 2^32: targets and link values wrap
     if row.n == 16 or row.name.endswith(('_T1', '_T2', '_T3', '_T4')):
